@@ -132,6 +132,16 @@ class PROP(Prop):
                 gid = "%smax%d" % (proto, i)
                 cs.append(Case("SYNC " + body, {"g": gid, "mode": "sync", "nops": len(ops), "model_line": "SYNC " + mbody}))
                 cs.append(Case("ASYNC " + body, {"g": gid, "mode": "async", "nops": len(ops), "model_line": "ASYNC " + mbody}))
+            # connected without a timeout, the blocking client has none: a reply that takes several seconds is waited for, as by the async client
+            if proto == "tcp":
+                for i, how in enumerate(["connect", "connect_slave"]):
+                    val = rng.randrange(65536)
+                    sl = None if how == "connect" else rng.randrange(1, 248)
+                    fr = cligen.frame("tcp", 0, 255 if sl is None else sl, mb.spec_rsp_pdu(("RHR", [val]))).hex()
+                    body = "tcp - %s call RHR:1:1 w3400:%s" % ("-" if sl is None else str(sl), fr)
+                    gid = "tcpslow%d" % i
+                    cs.append(Case("SYNC " + body, {"g": gid, "mode": "sync", "nops": 2, "slow": True}))
+                    cs.append(Case("ASYNC " + body, {"g": gid, "mode": "async", "nops": 2, "slow": True}))
             # a ZERO timeout is a timeout: an operation that has to wait for its peer times out at once, exactly as the async operation
             # under tokio::time::timeout(Duration::ZERO, ..) does (only `None` means "no timeout")
             for i in range(3 if tier == "quick" else 20):
